@@ -129,18 +129,25 @@ class ArrayGet2D(_Arr):
     name = "pysnark.array:Array.__getitem__#2d"
 
     def configs(self, tier):
-        return [dict(mode="plain", shape=s) for s in ((2, 2),) + (((2, 3), (3, 2)) if tier != "quick" else ())]
+        out = [dict(mode="plain", shape=s) for s in ((2, 2),) + (((2, 3), (3, 2)) if tier != "quick" else ())]
+        out += [dict(mode="plain", shape=(2, 2), rows=r, index=ix) for r in ("array", "arrayrow") for ix in ("is", "si", "ii")]
+        out += [dict(mode="plain", shape=(2, 2), rows="arrayrow", index="ss")]
+        return out
 
     def setup(self, c, cfg):
         apply_mode(c, cfg["mode"])
         am = _arr_mod(c)
         rows, cols = cfg["shape"]
         self._vals = [[c.operand("e%d%d" % (a, b)) for b in range(cols)] for a in range(rows)]
-        A = am.Array([am.Array(row) for row in self._vals])
-        return type(A).__getitem__, (A, (c.operand("i"), c.operand("j"))), {}
+        mk = (lambda row: am.Array(row)) if cfg.get("rows", "array") == "array" else (lambda row: am.ArrayRow(am.Array(row)))
+        A = am.Array([mk(row) for row in self._vals])
+        ix = cfg.get("index", "ss")
+        i = c.operand("i") if ix[0] == "s" else rows - 1
+        j = c.operand("j") if ix[1] == "s" else cols - 1
+        return type(A).__getitem__, (A, (i, j)), {}
 
     def pre(self, c, A, ij):
-        return [canon(c, c.v(ij[0])), canon(c, c.v(ij[1]))]
+        return [canon(c, c.v(x)) for x in ij]
 
     def raises(self, c, A, ij):
         rows, cols = len(self._vals), len(self._vals[0])
@@ -155,22 +162,32 @@ class ArrayGet2D(_Arr):
 
 @register
 class ArraySet2D(_Arr):
-    """arr[i, j] = v on an array of arrays: exactly that cell changes; arr[i][j] = v is refused."""
+    """arr[i, j] = v on an array of arrays: exactly that cell changes, whatever mix of secret and public indices
+    is used and whether the rows are Arrays or rows returned by a secret-index read (ArrayRow)."""
     name = "pysnark.array:Array.__setitem__#2d"
 
     def configs(self, tier):
-        return [dict(mode="plain", shape=(2, 2))]
+        out = []
+        for rows in ("array", "arrayrow"):
+            for ix in ("ss", "is", "si", "ii"):
+                out.append(dict(mode="plain", shape=(2, 2), rows=rows, index=ix))
+        return out
+
+    def _ix(self, c, kind, name, n):
+        return c.operand(name) if kind == "s" else n - 1
 
     def setup(self, c, cfg):
         apply_mode(c, cfg["mode"])
         am = _arr_mod(c)
         rows, cols = cfg["shape"]
         self._vals = [[c.operand("e%d%d" % (a, b)) for b in range(cols)] for a in range(rows)]
-        A = am.Array([am.Array(row) for row in self._vals])
-        return type(A).__setitem__, (A, (c.operand("i"), c.operand("j")), c.operand("v")), {}
+        mk = (lambda row: am.Array(row)) if cfg.get("rows", "array") == "array" else (lambda row: am.ArrayRow(am.Array(row)))
+        A = am.Array([mk(row) for row in self._vals])
+        ix = cfg.get("index", "ss")
+        return type(A).__setitem__, (A, (self._ix(c, ix[0], "i", rows), self._ix(c, ix[1], "j", cols)), c.operand("v")), {}
 
     def pre(self, c, A, ij, v):
-        return [canon(c, c.v(ij[0])), canon(c, c.v(ij[1]))]
+        return [canon(c, c.v(x)) for x in ij]
 
     def raises(self, c, A, ij, v):
         rows, cols = len(self._vals), len(self._vals[0])
@@ -179,7 +196,9 @@ class ArraySet2D(_Arr):
 
     def post(self, c, r, A, ij, v):
         i, j = c.v(ij[0]), c.v(ij[1])
-        d = {}
+        d = {"V.shape": len(A.arr) == len(self._vals) and all(len(A.arr[a].arr) == len(row) for a, row in enumerate(self._vals))}
+        if not d["V.shape"]:
+            return d
         for a, row in enumerate(self._vals):
             for b, e in enumerate(row):
                 new = A.arr[a].arr[b]
